@@ -20,6 +20,7 @@ struct SimSetup {
   sim::Config cfg;
   std::vector<sim::Deviation> script;
   size_t thresholdDiv = 1;
+  size_t maxUnionSize = 0;  // hook H5: BatchUnion chunk size, 0 = shipped
 };
 SimSetup sim_setup(const Args& a);
 
